@@ -6,9 +6,11 @@ import (
 	"fmt"
 	"io"
 	"math/rand"
+	"strings"
 	"sync"
 
 	"perun.network/go-perun/wire"
+	wirenet "perun.network/go-perun/wire/net"
 
 	"verif/internal/canon"
 	"verif/internal/codecs"
@@ -162,9 +164,24 @@ func checkStream(r *ev.Run, rng *rand.Rand, sname string, ser wire.EnvelopeSeria
 		}
 		failed := -1
 		var what string
+		// a third of the partitions go through the connection type the library itself puts on top of
+		// a byte stream (wire/net.NewIoConn ... Recv) instead of calling the serializer directly
+		viaConn := (len(chunks)+cr.chunks0())%3 == 1
+		var conn wirenet.Conn
+		if viaConn {
+			conn = wirenet.NewIoConn(rwc{cr}, ser)
+			kind += "/ioconn"
+		}
 		for j := range want {
 			var env *wire.Envelope
-			err := safely(func() (e error) { env, e = ser.Decode(cr); return })
+			err := safely(func() (e error) {
+				if viaConn {
+					env, e = conn.Recv()
+				} else {
+					env, e = ser.Decode(cr)
+				}
+				return
+			})
 			if err != nil {
 				failed, what = j, fmt.Sprintf("envelope %d of %d (%s) failed to decode under partition %s: %v", j, len(want), types[j], kind, err)
 				break
@@ -174,7 +191,7 @@ func checkStream(r *ev.Run, rng *rand.Rand, sname string, ser wire.EnvelopeSeria
 				break
 			}
 		}
-		r.Case(desc, cr.reads >= 2 && kind != "whole")
+		r.Case(desc, cr.reads >= 2 && !strings.HasPrefix(kind, "whole"))
 		r.Count("partitions_"+kind, 1)
 		r.Count("reader_calls", int64(cr.reads))
 		if failed >= 0 {
@@ -234,6 +251,19 @@ func safely(f func() error) (err error) {
 		}
 	}()
 	return f()
+}
+
+// rwc makes the chunk reader an io.ReadWriteCloser for wire/net.NewIoConn.
+type rwc struct{ *chunkReader }
+
+func (rwc) Write(p []byte) (int, error) { return len(p), nil }
+func (rwc) Close() error                { return nil }
+
+func (c *chunkReader) chunks0() int {
+	if len(c.chunks) > 0 {
+		return c.chunks[0]
+	}
+	return 0
 }
 
 func trimInts(a []int) []int {
